@@ -124,6 +124,9 @@ def cases(tier: str, seed: int) -> list[dict]:
             for _ in range(6 if tier == "quick" else 30):
                 ev.append({"a": "Transect", "path": random_path(rng, bbox, rng.randint(2, 5)), "var": rng.choice(["temp", ""])})
             out.append({"src": "gen", "world": w, "events": ev})
+    vias = ["file", "memory", "dask", "emsopen", "memory"]      # how the dataset is held (viafile.hold)
+    for k, c in enumerate(out):
+        c["world"]["via"] = vias[k % len(vias)]
     return out
 
 
